@@ -163,7 +163,7 @@ def build(modules=None, want_cstat=False, sanitize=False, opt="-O1"):
                 shutil.rmtree(out)
             # prune older overlays (keep disk use bounded)
             olds = sorted([d for d in SCRATCH_ROOT.glob("ov-*") if d.is_dir()], key=lambda d: d.stat().st_mtime)
-            for d in olds[:-3]:
+            for d in olds[:-12]:
                 shutil.rmtree(d, ignore_errors=True)
             out.mkdir(parents=True)
             objdir = out / "obj"
